@@ -455,7 +455,8 @@ fn constant_data_from_storage_offset<T: LeBytes + FromByteArray>(
     // end of its range in the storage are computed with overflow checks.
     let byte_len = shape
         .iter()
-        .try_fold(std::mem::size_of::<T>(), |len, &size| len.checked_mul(size));
+        .try_fold(1usize, |len, &size| len.checked_mul(size))
+        .and_then(|n_elements| n_elements.checked_mul(std::mem::size_of::<T>()));
     let bytes = byte_len
         .and_then(|byte_len| offset.checked_add(byte_len))
         .and_then(|end| storage.data().get(offset..end));
